@@ -20,6 +20,16 @@ Definition lift_opt {A} (o : option A) : M A :=
   match o with Some a => ret a | None => panic end.
 (** uint64(i) for an int i *)
 Definition to_uint64 (i : Z) : Z := i mod 2 ^ 64.
+(** int64(u) of a uint64 (wrap-around) *)
+Definition to_int64 (u : Z) : Z := if u <? two63 then u else u - two64.
+(** order of two non-NaN float64 values on their bit patterns: sign-magnitude -> a monotone key (-0 = +0) *)
+Definition b64_key (x : Z) : Z := if x <? two63 then x else two63 - x.
+Definition b64_le (a b : Z) : bool := b64_key a <=? b64_key b.
+Definition b64_lt (a b : Z) : bool := b64_key a <? b64_key b.
+(** int64(f): truncation toward zero; outside the int64 range (amd64 CVTTSD2SQ) MinInt64 *)
+Definition b64_to_int64 (x : Z) : Z :=
+  if x <? two63 then (if bits_two63 <=? x then - two63 else b64_trunc x)
+  else (if bits_two63 <? x - two63 then - two63 else - b64_trunc (x - two63)).
 Definition zero_token : token := {| t_typ := 0; t_pos := zero_position; t_txt := [] |}.
 
 (** the final receiver value read as a definition: Parse appends the pointer it handed to parseFrom *)
